@@ -54,7 +54,9 @@ func (inst *InstICmp) Type() types.Type {
 		case *types.IntType, *types.PointerType:
 			inst.Typ = types.I1
 		case *types.VectorType:
-			inst.Typ = types.NewVector(xType.Len, types.I1)
+			typ := types.NewVector(xType.Len, types.I1)
+			typ.Scalable = xType.Scalable
+			inst.Typ = typ
 		default:
 			panic(fmt.Errorf("invalid icmp operand type; expected *types.IntType, *types.PointerType or *types.VectorType, got %T", xType))
 		}
@@ -124,7 +126,9 @@ func (inst *InstFCmp) Type() types.Type {
 		case *types.FloatType:
 			inst.Typ = types.I1
 		case *types.VectorType:
-			inst.Typ = types.NewVector(xType.Len, types.I1)
+			typ := types.NewVector(xType.Len, types.I1)
+			typ.Scalable = xType.Scalable
+			inst.Typ = typ
 		default:
 			panic(fmt.Errorf("invalid fcmp operand type; expected *types.FloatType or *types.VectorType, got %T", xType))
 		}
